@@ -39,12 +39,12 @@ func init() {
 			"zero-value Buffers get one completed call before they are shared, as the lazy initialiser documents",
 		},
 		Families: []core.Family{
-			{Name: "buffer", N: core.TierN(48, 400), Batch: 4, Run: c11Buffer},
-			{Name: "channel", N: core.TierN(32, 300), Batch: 4, Run: c11Channel},
-			{Name: "caster-pubsub", N: core.TierN(32, 300), Batch: 4, Run: c11PubSub},
-			{Name: "exclusive-workers-worker", N: core.TierN(32, 300), Batch: 4, Run: c11Exec},
-			{Name: "notifier", N: core.TierN(32, 300), Batch: 4, Run: c11Notifier},
-			{Name: "sync-context-misc", N: core.TierN(32, 300), Batch: 4, Run: c11Misc},
+			{Name: "buffer", N: core.TierN(48, 1600), Batch: 4, Run: c11Buffer},
+			{Name: "channel", N: core.TierN(32, 1200), Batch: 4, Run: c11Channel},
+			{Name: "caster-pubsub", N: core.TierN(32, 1200), Batch: 4, Run: c11PubSub},
+			{Name: "exclusive-workers-worker", N: core.TierN(32, 1200), Batch: 4, Run: c11Exec},
+			{Name: "notifier", N: core.TierN(32, 1200), Batch: 4, Run: c11Notifier},
+			{Name: "sync-context-misc", N: core.TierN(32, 1200), Batch: 4, Run: c11Misc},
 		},
 	})
 }
